@@ -30,7 +30,46 @@ pub mod script {
         out
     }
 
+    // ---------------------------------------------------------------------------------------
+    // Search mode (fallback when the solver's trace is too large for Kani's concrete playback):
+    // the harness' small finite input domain is enumerated natively — every `any_below(n)` /
+    // `any_bool()` draw is a digit of an odometer, every other draw is 0 — until a labelled
+    // assertion fails. The failing digits are printed as a replay script.
+    // ---------------------------------------------------------------------------------------
+    thread_local! { pub static SEARCH: RefCell<Option<(Vec<u8>, Vec<u8>, usize)>> = RefCell::new(None); } // (digits, bases, pos)
+    pub fn search_active() -> bool { SEARCH.with(|s| s.borrow().is_some()) }
+    pub fn search_digit(base: u8) -> u8 {
+        SEARCH.with(|s| {
+            let mut g = s.borrow_mut();
+            let st = g.as_mut().unwrap();
+            let p = st.2;
+            st.2 += 1;
+            if p >= st.0.len() { st.0.push(0); st.1.push(base); }
+            st.1[p] = base;
+            if st.0[p] >= base { st.0[p] = 0; }
+            st.0[p]
+        })
+    }
+    /// advance the odometer; false when the domain is exhausted
+    pub fn search_advance() -> bool {
+        SEARCH.with(|s| {
+            let mut g = s.borrow_mut();
+            let st = g.as_mut().unwrap();
+            st.0.truncate(st.2.min(st.0.len()));
+            st.1.truncate(st.0.len());
+            let mut i = st.0.len();
+            while i > 0 {
+                i -= 1;
+                if st.0[i] + 1 < st.1[i] { st.0[i] += 1; st.0.truncate(i + 1); st.1.truncate(i + 1); st.2 = 0; return true; }
+            }
+            false
+        })
+    }
+    pub struct SearchAbort;        // unmet assumption: next candidate
+    pub struct SearchHit(pub String); // failing label
+
     pub fn next(n: usize) -> Vec<u8> {
+        if search_active() { return vec![0u8; n]; }
         SCRIPT.with(|s| {
             let mut s = s.borrow_mut();
             let i = s.1;
@@ -62,10 +101,18 @@ any_int!(any_u32, u32, 4);
 any_int!(any_u64, u64, 8);
 any_int!(any_usize, usize, 8);
 
-pub fn any_bool() -> bool { any_u8() & 1 == 1 }
+pub fn any_bool() -> bool {
+    #[cfg(not(kani))]
+    if script::search_active() { return script::search_digit(2) == 1; }
+    any_u8() & 1 == 1
+}
 
 /// Value in `0..n` (n > 0).
-pub fn any_below(n: u8) -> u8 { let v = any_u8(); assume(v < n); v }
+pub fn any_below(n: u8) -> u8 {
+    #[cfg(not(kani))]
+    if script::search_active() { return script::search_digit(n); }
+    let v = any_u8(); assume(v < n); v
+}
 
 pub fn any_bytes<const N: usize>() -> [u8; N] {
     let mut out = [0u8; N];
@@ -78,12 +125,48 @@ pub fn assume(c: bool) {
     #[cfg(kani)]
     kani::assume(c);
     #[cfg(not(kani))]
-    if !c { println!("REPLAY-ASSUME-FAILED"); std::process::exit(102); }
+    if !c {
+        if script::search_active() { std::panic::panic_any(script::SearchAbort); }
+        println!("REPLAY-ASSUME-FAILED"); std::process::exit(102);
+    }
 }
 
 pub fn replay_fail(label: &str) -> ! {
+    #[cfg(not(kani))]
+    if script::search_active() { std::panic::panic_any(script::SearchHit(label.to_string())); }
     println!("REPLAY-FAIL {}", label);
     std::process::exit(101)
+}
+
+/// Native search driver: runs `harness` over its enumerated domain (at most `limit` candidates).
+#[cfg(not(kani))]
+pub fn search(harness: fn(), limit: usize) {
+    script::SEARCH.with(|s| *s.borrow_mut() = Some((Vec::new(), Vec::new(), 0)));
+    std::panic::set_hook(Box::new(|_| {}));
+    let mut tried = 0usize;
+    loop {
+        script::SEARCH.with(|s| s.borrow_mut().as_mut().unwrap().2 = 0);
+        let r = std::panic::catch_unwind(harness);
+        tried += 1;
+        if let Err(e) = r {
+            if let Some(hit) = e.downcast_ref::<script::SearchHit>() {
+                let digits = script::SEARCH.with(|s| s.borrow().as_ref().unwrap().0.clone());
+                println!("SEARCH-SCRIPT {}", digits.iter().map(|d| d.to_string()).collect::<Vec<_>>().join(" "));
+                println!("SEARCH-TRIED {}", tried);
+                println!("REPLAY-FAIL {}", hit.0);
+                std::process::exit(101);
+            } else if e.downcast_ref::<script::SearchAbort>().is_none() {
+                // a genuine panic of the code under test on this candidate
+                let digits = script::SEARCH.with(|s| s.borrow().as_ref().unwrap().0.clone());
+                println!("SEARCH-SCRIPT {}", digits.iter().map(|d| d.to_string()).collect::<Vec<_>>().join(" "));
+                println!("REPLAY-PANIC");
+                std::process::exit(101);
+            }
+        }
+        if tried >= limit || !script::search_advance() { break; }
+    }
+    println!("SEARCH-TRIED {}", tried);
+    println!("SEARCH-EXHAUSTED");
 }
 
 /// Property assertion. The label must start with the property id (`C18.strict: …`).
